@@ -2,7 +2,7 @@
 (denotational) evaluation of the description, and the conversion of recorded events to trace records."""
 from __future__ import annotations
 
-from .dflow import val
+from .dflow import elem, topval, val
 
 
 def tla(v):
@@ -55,7 +55,7 @@ def _fn(name, dom, items):
 
 
 def tok(t):
-    return "%s(%s, %s)" % ("LTok" if isinstance(t["val"], list) else "Tok", tla(t["tag"]), tla(t["val"]))
+    return "%s(%s, %s)" % ("LTok" if isinstance(t["val"], list) else "Tok", tla(t["tag"]), tla(topval(t["val"])))
 
 
 def _fnv(dom, items):
@@ -86,7 +86,7 @@ def net_record(desc):
         ("depth", _fnv(steps, [(x["name"], str(x.get("depth", 1))) for x in m["steps"]])),
         ("outports", tla(set(m["outputs"]))),
         ("fail", "{%s}" % ", ".join("<<%s, %s>>" % (tla(s), tla(t)) for s, t in m["fail"])),
-        ("expected", "{%s}" % ", ".join("<<%s, %s, %s>>" % (tla(p), tla(t), tla(v)) for p, t, v in exp["outputs"])),
+        ("expected", "{%s}" % ", ".join("<<%s, %s, %s>>" % (tla(p), tla(t), tla(topval(v))) for p, t, v in exp["outputs"])),
         ("deadend", "TRUE" if "dead-end" in desc.get("classes", []) else "FALSE"),
     ]
     return "[" + ",\n   ".join("%s |-> %s" % f for f in fields) + "]"
@@ -240,7 +240,7 @@ def to_trace(desc, run):
         if k == "job":
             return "job", 0
         if isinstance(v, list):
-            return "lst", v
+            return "lst", topval(v)
         if isinstance(v, str):      # connector token
             return "tok", 0
         return "tok", v
@@ -287,7 +287,7 @@ def to_trace(desc, run):
                     rec["deps"] = sorted(identity(x) for x in p["inputs"])
                 out.append(rec)
         elif ev == "return":
-            out.append({"ev": "return", "outs": sorted([[k, v] for k, v in (run.get("result") or {}).items()], key=lambda x: x[0])})
+            out.append({"ev": "return", "outs": sorted([[k, topval(v)] for k, v in (run.get("result") or {}).items()], key=lambda x: x[0])})
         elif ev == "raise":
             out.append({"ev": "raise", "outs": []})
         i += 1
